@@ -192,11 +192,108 @@ func c05LeafFault(src, prelude, expr, fault string) c05Leaf {
 const c05SmallStack = 16 << 20
 const c05TinyStack = 4 << 20
 
-// recursion that never grows one storage beyond a level: every level runs on a fresh storage
-func c05LeafFreshRec(method string) c05Leaf {
-	l := c05LeafFault("recursion-through-fresh-stack", "func rf(n) [n]."+method+"(y->rf(y)).first(); ", "rf(a)", "(FRecFresh 1 4611686018427387904)")
+// recursion whose recursive call sits in the closure handed to a method or function: one shape per
+// closure-taking built-in of value.New() (c05RecShapes). %R-free: the body calls rf itself.
+type c05RecShape struct{ Method, Body string }
+
+var c05RecShapes = []c05RecShape{
+	{"direct-call", "rf(n+1)+1"},
+	{"closure-call", "let c=e->rf(e+1); c(n)"},
+	{"map-field-call", "{k:e->rf(e+1)}.k(n)"},
+	{"catch-closure", `try throw("x") catch e->rf(n+1)`},
+	{"closure.invoke", "let c=e->rf(e+1); c.invoke([n])"},
+	{"list.map", "[n].map(e->rf(e+1)).first()"},
+	{"list.accept", "[n].accept(e->rf(e+1)>=0).size()"},
+	{"list.reduce", "[n,n].reduce((p,q)->rf(q+1))"},
+	{"list.mapReduce", "[n].mapReduce(0,(s,e)->rf(e+1))"},
+	{"list.combine", "[n,n].combine((p,q)->rf(q+1)).first()"},
+	{"list.combine3", "[n,n,n].combine3((p,q,r)->rf(q+1)).first()"},
+	{"list.combineN", "[n,n].combineN(2,l->rf(n+1)).first()"},
+	{"list.compact", "[n,n].compact((p,q)->rf(q+1)>=0).size()"},
+	{"list.cross", "[n].cross([1],(p,q)->rf(p+q)).first()"},
+	{"list.merge", "[n].merge([n],(p,q)->rf(q+1)>=0).size()"},
+	{"list.iir", "[n,n].iir(i->rf(i+1),(i,l)->l).first()"},
+	{"list.iirCombine", "[n,n].iirCombine(i->rf(i+1),(i,j,l)->l).first()"},
+	{"list.iirApply", "[n,n].iirApply({initial:i->rf(i+1),filter:(i,j,l)->l}).first()"},
+	{"list.fsm", "[n].fsm((s,i)->goto(rf(i+1))).first().state"},
+	{"list.visit", "[n].visit(0,(v,e)->rf(e+1))"},
+	{"list.number", "[n].number((i,e)->rf(e+1)).first()"},
+	{"list.indexWhere", "[n].indexWhere(e->rf(e+1)>=0)"},
+	{"list.present", "if [n].present(e->rf(e+1)>=0) then 0 else 0"},
+	{"list.order", "[n,n].order(e->rf(e+1)).size()"},
+	{"list.orderRev", "[n,n].orderRev(e->rf(e+1)).size()"},
+	{"list.orderLess", "[n,n].orderLess((p,q)->rf(q+1)>=1).size()"},
+	{"list.groupByString", "[n].groupByString(e->string(rf(e+1))).size()"},
+	{"list.groupByInt", "[n].groupByInt(e->rf(e+1)).size()"},
+	{"list.groupByEqual", "[n].groupByEqual(e->rf(e+1)).size()"},
+	{"list.uniqueString", "[n].uniqueString(e->string(rf(e+1))).size()"},
+	{"list.uniqueInt", "[n].uniqueInt(e->rf(e+1)).size()"},
+	{"list.minMax", "int([n].minMax(e->rf(e+1)).min)"},
+	{"list.replaceList", "[n].replaceList(l->rf(n+1))"},
+	{"list.multiUse", "[n].multiUse({u:l->l.size()+rf(n+1)-1}).u"},
+	{"list.movingWindow", "[n,n].movingWindow(e->float(rf(e+1))).size()"},
+	{"list.movingWindowRemove", "[n,n].movingWindowRemove(l->rf(n+1)<0).size()"},
+	{"list.binning", "[n].binning(0,1,2,e->rf(e+1),e->1).size()"},
+	{"list.binning2d", "[n].binning2d(0,1,2,0,1,2,e->rf(e+1),e->0,e->1).size()"},
+	{"list.createInterpolation", "int([n,n+1].createInterpolation(e->float(rf(e+1)+e),e->1.0)(0.0))-1"},
+	{"list.linearReg", "int([n,n+1].linearReg(e->float(rf(e+1)+e),e->1.0).b)-1"},
+	{"map.accept", "{k:n}.accept((k,v)->rf(v+1)>=0).size()-1"},
+	{"map.map", "{k:n}.map((k,v)->rf(v+1)).k"},
+	{"map.combine", "{k:n}.combine({k:n},(p,q)->rf(q+1)).k"},
+	{"map.replace", "{k:n}.replace(m->{k:rf(n+1)}).k"},
+	{"map.replaceMap", "{k:n}.replaceMap(m->rf(n+1))"},
+	{"static.bisection", "int(bisection(x->float(rf(n+1))+x,-1,1))"},
+	{"static.createLowPass", `int(createLowPass("y",p->1.0,p->float(rf(n+1)),1.0).initial({t:0}).y)`},
+}
+
+const c05RecBound = 12000 // deeper than the 10000 slots of the guard
+
+// the built-ins of value.New() whose documentation mentions a function argument; every one of them must
+// have a shape above (checked on every run: a new closure-taking built-in without a shape is reported)
+func c05ClosureTakers() []string {
+	var r []string
+	for _, td := range value.New().GetDocumentation() {
+		pre := td.Name + "."
+		if td.Name == "global" {
+			pre = "static."
+		}
+		for _, fd := range td.Functions {
+			if fd.Description == nil {
+				continue
+			}
+			txt := strings.Join(fd.Description.Args, " ")
+			if strings.Contains(txt, "func") || strings.Contains(txt, "equal(") || fd.Name == "iirApply" || fd.Name == "invoke" {
+				r = append(r, pre+fd.Name)
+			}
+		}
+	}
+	return r
+}
+
+// recursion to depth 12000 with a base case: an error (the guard fires) when the method runs the closure
+// on the caller's storage, the value 0.. when it starts a fresh storage per level
+func c05LeafRecBounded(sh c05RecShape) c05Leaf {
+	l := c05LeafFault("recursion-through:"+sh.Method, fmt.Sprintf("func rf(n) if n>%d then 0 else %s; ", c05RecBound, sh.Body), "rf(a)",
+		fmt.Sprintf("(FRecThrough %s 1 8 %d)", CoqStr(sh.Method), c05RecBound))
+	l.Heavy = true
+	return l
+}
+
+// the same recursion without a base case, observed under a reduced Go stack limit
+func c05LeafRecRunaway(sh c05RecShape) c05Leaf {
+	l := c05LeafFault("recursion-through:"+sh.Method, "func rf(n) "+sh.Body+"; ", "rf(a)",
+		fmt.Sprintf("(FRecThrough %s 1 8 4611686018427387904)", CoqStr(sh.Method)))
 	l.MaxStack, l.D, l.Heavy = c05TinyStack, c05TinyStack/32, true
 	return l
+}
+
+func c05ShapeOf(method string) c05RecShape {
+	for _, sh := range c05RecShapes {
+		if sh.Method == method {
+			return sh
+		}
+	}
+	panic("c05: no recursion shape " + method)
 }
 
 // runaway recursion on one storage whose body nests so many Go calls per level that the Go stack is
@@ -265,7 +362,22 @@ var c05Contexts = []c05Ctx{
 	{"merge-less", "KMergeLess", "[1,2,3].merge([1,2],(p,q)->let m=mark(0); let t=%F; p<q).size()", false, false},
 	{"multiuse", "KMultiUse", "[1,2,3].multiUse({u:l->let m=mark(0); let t=%F; l.size(), v:l->l.size()}).u", false, true},
 	{"multiuse-inner-map", "KMultiUseInner", "[1,2,3].multiUse({u:l->l.map(z->let m=mark(0); let t=%F; z).sum(), v:l->l.size()}).u", false, true},
+	// the fault sits in a still-lazy list nested in what a consumer, a closure or the program returns
+	{"multiuse-returns-map-lazy", "KMuRetMapLazy", "[1,2,3].multiUse({u:l->{x:l.map(z->let m=mark(0); let t=%F; z)}, v:l->l.size()})", false, true},
+	{"multiuse-returns-list-lazy", "KMuRetListLazy", "[1,2,3].multiUse({u:l->[l.map(z->let m=mark(0); let t=%F; z)], v:l->l.size()})", false, true},
+	{"multiuse-returns-map-map-lazy", "KMuRetMapMapLazy", "[1,2,3].multiUse({u:l->{x:{y:l.map(z->let m=mark(0); let t=%F; z)}}, v:l->l.size()})", false, true},
+	{"try-multiuse-returns-map-lazy", "KTryMuRetMapLazy", "try [1,2,3].multiUse({u:l->{x:l.map(z->let m=mark(0); let t=%F; z)}, v:l->l.size()}) catch 4242", false, true},
+	{"map-returns-lazy", "KMapRetLazy", "[1,2,3].map(z->{x:[z].map(y->let m=mark(0); let t=%F; y)})", false, false},
+	{"closure-returns-lazy", "KCloRetLazy", "let k=z->{x:[[z].map(y->let m=mark(0); let t=%F; y)]}; k(0)", false, false},
+	{"top-map-lazy", "KTopMapLazy", "{x:[1,2,3].map(z->let m=mark(0); let t=%F; z)}", false, false},
+	{"top-list-lazy", "KTopListLazy", "[[1,2,3].map(z->let m=mark(0); let t=%F; z)]", false, false},
+	{"top-map-map-lazy", "KTopMapMapLazy", "{x:{y:[1,2,3].map(z->let m=mark(0); let t=%F; z)}}", false, false},
 	{"try-multiuse", "KTryMultiUse", "try [1,2,3].multiUse({u:l->let m=mark(0); let t=%F; l.size(), v:l->l.size()}).u catch 4242", false, true},
+}
+
+// fault sources that are faults by construction: host functions, throw, runaway recursion
+func c05SurelyFaulting(l c05Leaf) bool {
+	return strings.HasPrefix(l.Coq, "(LFault ") && !strings.Contains(l.Coq, "FValue") && !strings.Contains(l.Coq, "FRecThrough")
 }
 
 func c05CtxByName(n string) c05Ctx {
@@ -291,7 +403,10 @@ func (c c05Case) prog() string {
 
 func (c c05Case) signature() string {
 	src := c.Leaf.Src
-	if strings.HasPrefix(src, "recursion-through-fresh-stack") || strings.HasPrefix(src, "recursion-deep-body") {
+	if strings.HasPrefix(src, "recursion-through:") {
+		return "recursion-through-fresh-stack/" + strings.TrimPrefix(src, "recursion-through:")
+	}
+	if strings.HasPrefix(src, "recursion-deep-body") {
 		return src + "/any"
 	}
 	return src + "/" + c.Ctx
@@ -669,9 +784,13 @@ func cmdC05(seed int64, tier, outDir string) {
 			}
 		}
 		for _, cn := range []string{"top", "try", "par-map", "multiuse"} {
-			cases = append(cases, c05Case{c05LeafFreshRec("map"), cn, 2})
+			cases = append(cases, c05Case{c05LeafRecRunaway(c05ShapeOf("list.map")), cn, 2})
 		}
-		cases = append(cases, c05Case{c05LeafFreshRec("accept"), "top", 16}, c05Case{c05LeafDeepBodyRec(), "top", 2}, c05Case{c05LeafDeepBodyRec(), "try", 16})
+		cases = append(cases, c05Case{c05LeafRecRunaway(c05ShapeOf("list.accept")), "top", 16}, c05Case{c05LeafDeepBodyRec(), "top", 2}, c05Case{c05LeafDeepBodyRec(), "try", 16})
+		// recursion through every closure-taking built-in, to a depth the guard must stop
+		for i, sh := range c05RecShapes {
+			cases = append(cases, c05Case{c05LeafRecBounded(sh), "top", procs[i%3]})
+		}
 		// representatives x every context x GOMAXPROCS (panic-class sources under all three settings)
 		k := 0
 		for _, l := range reps {
@@ -709,15 +828,49 @@ func cmdC05(seed int64, tier, outDir string) {
 	seen := map[string]bool{}
 	uniq := cases[:0]
 	for _, c := range cases {
-		k := fmt.Sprint(c.Leaf.Src, c.Leaf.Args, c.Leaf.Expr, c.Ctx, c.Procs)
+		k := fmt.Sprint(c.Leaf.Src, c.Leaf.Args, c.Leaf.Prelude, c.Leaf.Expr, c.Ctx, c.Procs)
 		if !seen[k] {
 			seen[k] = true
 			uniq = append(uniq, c)
 		}
 	}
 	cases = uniq
+	// every closure-taking built-in must have a recursion shape
+	if optReplay == "" {
+		have := map[string]bool{}
+		for _, sh := range c05RecShapes {
+			have[sh.Method] = true
+		}
+		for _, m := range c05ClosureTakers() {
+			if !have[m] {
+				fatal("c05: the closure-taking built-in %s has no recursion shape in c05RecShapes (harness/c05.go): add one", m)
+			}
+		}
+	}
 	t0 := time.Now()
 	outs := c05RunAll(cases)
+	if optReplay == "" {
+		// second phase: where the guard did not stop the bounded recursion, the runaway recursion is observed under
+		// a small Go stack (multiUse starts a goroutine per level: it exhausts memory, not one stack - not run)
+		var extra []c05Case
+		for _, o := range outs {
+			if strings.HasPrefix(o.c.Leaf.Src, "recursion-through:") && o.c.Leaf.MaxStack == 0 && o.obs.Class == "val" {
+				m := strings.TrimPrefix(o.c.Leaf.Src, "recursion-through:")
+				if m != "list.multiUse" {
+					extra = append(extra, c05Case{c05LeafRecRunaway(c05ShapeOf(m)), "top", 2})
+				}
+			}
+		}
+		var extra2 []c05Case
+		for _, c := range extra {
+			k := fmt.Sprint(c.Leaf.Src, c.Leaf.Args, c.Leaf.Prelude, c.Leaf.Expr, c.Ctx, c.Procs)
+			if !seen[k] {
+				seen[k] = true
+				extra2 = append(extra2, c)
+			}
+		}
+		outs = append(outs, c05RunAll(extra2)...)
+	}
 	sum.Extra["worker_wall_s"] = time.Since(t0).Seconds()
 	sum.Extra["worker_processes_cases"] = len(cases)
 
@@ -758,6 +911,13 @@ func cmdC05(seed int64, tier, outDir string) {
 		if obs.Class == "died" {
 			sum.GoViolations = append(sum.GoViolations, GoViolation{CaseID: id, What: "the worker process evaluating the program died: " + obs.Detail,
 				Sig: sig, Human: human, Expected: "a value or an error returned by Func.Eval", Observed: "process terminated"})
+		} else if strings.HasPrefix(c.Leaf.Src, "recursion-through:") && c.Leaf.MaxStack == 0 && (obs.Class == "val" || obs.Class == "catch") {
+			sum.GoViolations = append(sum.GoViolations, GoViolation{CaseID: id, What: fmt.Sprintf("the recursion guard did not fire: recursion through %s reached depth %d (every level on a fresh value stack); runaway recursion of this shape exhausts the Go stack or the memory",
+				strings.TrimPrefix(c.Leaf.Src, "recursion-through:"), c05RecBound),
+				Sig: sig, Human: human, Expected: "error: stack overflow; maybe a recursive function does not terminate", Observed: "value " + obs.Detail})
+		} else if (obs.Class == "val" || obs.Class == "catch") && !strings.Contains(c.Ctx, "try") && c05SurelyFaulting(c.Leaf) {
+			sum.GoViolations = append(sum.GoViolations, GoViolation{CaseID: id, What: "the fault source is reached by the (deep) evaluation but no error came back: value " + obs.Detail,
+				Sig: sig, Human: human, Expected: "an error returned by Func.Eval or by evaluating the lists of its result", Observed: "value " + obs.Detail})
 		} else if obs.Class == "err" && tryOuter {
 			sum.GoViolations = append(sum.GoViolations, GoViolation{CaseID: id, What: "try/catch with a constant catch value did not catch the fault: " + obs.Detail,
 				Sig: sig, Human: human, Expected: "the catch value 4242", Observed: "error returned"})
